@@ -180,8 +180,27 @@ impl Property for C08 {
             ctx.sample("workspace", || json!({"files": sw.ws.files.iter().map(|f| json!({"path": f.path, "text": clip(&f.text, 300)})).collect::<Vec<_>>()}));
             Ok(())
         });
+        // the same refusals through the real server: which package a file belongs to is decided by
+        // the server's project discovery, also when a dependency's file is the first one opened
+        if !std::path::Path::new(&crate::engine::lsp::glas_bin()).exists() {
+            ctx.inconclusive.push(format!("glas binary not found at {} (run through ./check)", crate::engine::lsp::glas_bin()));
+            return;
+        }
+        let lsp_cases = ctx.tier.pick(300, 5_000);
+        ctx.run_streams("c08-lsp", lsp_cases, 700, |ctx, bytes| {
+            ctx.mark(&json!({"stream": hex(bytes), "rename_mode": true}));
+            let nt = super::c17::run_tree_mode(ctx, bytes, true)?;
+            if nt {
+                ctx.nontrivial(hash_str(&hex(bytes)));
+            }
+            Ok(())
+        });
     }
     fn replay(&self, _ctx: &mut Ctx, case: &Value) -> Result<(), Failure> {
+        if let (Some(h), Some(true)) = (case.get("stream").and_then(|s| s.as_str()), case.get("rename_mode").and_then(|b| b.as_bool())) {
+            let mut ctx = Ctx::new("C08", Tier::Quick, 0, 0, 1);
+            return super::c17::run_tree_mode(&mut ctx, &unhex(h), true).map(|_| ());
+        }
         if let Some(h) = case.get("stream").and_then(|s| s.as_str()) {
             let bytes = unhex(h);
             let mut c = Choices::new(&bytes);
